@@ -624,7 +624,10 @@ class Interp:
             if cur.kind == "tensor" or cur.kind == "top":
                 # in-place update of a tensor object
                 self.dom.on_write(self, "augassign", cur, val, st)
-                if getattr(self.dom, "value_semantics", False):
+                if getattr(self.dom, "inplace_keeps_receiver", False):
+                    # x += y writes into x: the property tracked (its dtype) stays x's own
+                    env.set(t.id, AV(cur.kind, None, cur.ann, False))
+                elif getattr(self.dom, "value_semantics", False):
                     env.set(t.id, res if res.kind in ("tensor", "top") else AV(cur.kind, None, self.dom.join_ann(cur.ann, all_ann(self.dom, res)), False))
                 else:
                     env.set(t.id, AV(cur.kind, None, cur.ann, False))
@@ -1679,6 +1682,9 @@ class Interp:
             dotted, cls, path = callee.data
             if dotted == "torch.nn.Identity":
                 return args[0] if args else NONE
+            if args and self._extmod_inplace(cls, path):
+                # nn.Dropout(inplace=True) / nn.ReLU(inplace=True) ...: the module overwrites its input
+                self.dom.on_write(self, "module(inplace=True)", args[0], NONE, node)
             return self.dom.ext_module_result(self, dotted, path, args, kwargs, node)
         if k == "builtin":
             return self.call_builtin(callee.data, args, kwargs, node)
@@ -1691,6 +1697,25 @@ class Interp:
             if isinstance(a, AV):
                 ann = self.dom.join_ann(ann, all_ann(self.dom, a))
         return TOP(ann)
+
+    def _extmod_inplace(self, cls, path):
+        """was the torch.nn module kept in this attribute constructed with inplace=True (or a non-constant flag)?"""
+        if cls is None or not path:
+            return False
+        try:
+            ai = self.p.attrs(cls).get(path[-1])
+        except Exception:
+            return False
+        if ai is None:
+            return False
+        for a in [ai] + list(getattr(ai, "alts", [])):
+            v = getattr(a, "value", None)
+            for n in ast.walk(v) if v is not None else []:
+                if isinstance(n, ast.Call):
+                    for kw in n.keywords:
+                        if kw.arg == "inplace" and not (isinstance(kw.value, ast.Constant) and kw.value.value is False):
+                            return True
+        return False
 
     def call_func(self, fi, bound, cenv, args, kwargs, node, optional=()):
         h = getattr(self.dom, "summary", None)
